@@ -361,7 +361,7 @@ func body(c *explore.Chooser) *explore.Case {
 	if single {
 		maxConds = 2
 	}
-	if tier == "thorough" && single {
+	if tier == "thorough" && single && !anchorMode { // the anchoring space is the same complete space in both tiers
 		maxConds = 3 // pairs stay at one condition each: two each would be 1.3 M blocks, a time-capped sample
 	}
 	var matches, ignores []sub
